@@ -505,7 +505,7 @@ func Run(cfg fw.Config, rec *fw.Rec) {
 	rec.Rule = "generated specs (native and source actions, guards, missing / @variable / empty targets, orphans, terminal nodes, empty and absent branch lists, self-loops, parallel branches to one target; with and without the automatic error node) in two strata judged separately: identifier-like node names, and hostile names (spaces, quotes, ->, <, >, &, newlines, unicode, keywords); tools.Analyze is compared with a reference graph analysis, tools.Dot output is tokenised as DOT (ids, quoted strings, nestable HTML strings, attribute lists, ->) and tools.Mermaid output as a flowchart, and node / edge multisets are compared with the spec graph; non-trivial = spec with >= 2 nodes and >= 1 branch; distinct by spec"
 	rec.Required = []string{"plain_analysis_ok", "plain_dot_ok", "plain_mermaid_ok", "native_action_rendered", "missing_target_rendered", "variable_target_rendered", "parallel_branches", "self_loop"}
 	rec.Assume = []string{"DOT and Mermaid subsets as emitted by the tools (the tokenizers accept what Graphviz / Mermaid accept for these constructs)", "the hostile-name stratum is judged separately so a finding there cannot mask the plain stratum"}
-	n := cfg.Pick(6000, 100000)
+	n := cfg.Pick(6000, 1000000)
 	fw.Parallel(cfg.Workers, n, func(w, i int) {
 		r := cfg.Rng("c20", i)
 		u := &gen.Uid{Prefix: fmt.Sprintf("g%d_", i)}
